@@ -24,7 +24,10 @@ RULE = ('synthetic libraries (1-6 groups, tables of 0-10 points, H/S/Cp values '
         'rejection cases (bare dimensional number without a default unit of '
         'its kind). Non-trivial = an abstract library for which >=3 '
         'presentations loaded and every group was compared at >=3 '
-        'temperatures; distinct by abstract data.')
+        'temperatures; distinct by abstract data.'
+        ' '
+        'Round 17: six files with different default-unit blocks and three'
+        ' unit-less files loaded from four threads at once.')
 ASSUMPTIONS = [
     'numbers are written without exponent notation (the units tokenizer does '
     'not read it)',
